@@ -180,58 +180,70 @@ impl<T, const N: usize> CapVec<T, N> {
     { unimplemented!() }
 }
 
+/*@type file=src/eeprom/types.rs name=CategoryType derive="Clone, Copy, PartialEq, Eq, Debug" @*/
+impl From<PdoType> for CategoryType {
+/*@fn file=src/eeprom/types.rs impl="impl From<PdoType> for CategoryType" name=from ret=none props=C12
+@*/
+}
+impl vstd::std_specs::convert::FromSpecImpl<PdoType> for CategoryType {
+    open spec fn obeys_from_spec() -> bool { true }
+    open spec fn from_spec(v: PdoType) -> CategoryType { match v { PdoType::Tx => CategoryType::TxPdo, PdoType::Rx => CategoryType::RxPdo } }
+}
+/// "the items were read from the category of this type of this EEPROM"
+pub uninterp spec fn walked(p: Prov, category: CategoryType) -> bool;
 pub struct SubDeviceEeprom { pub provider: Prov }
 impl SubDeviceEeprom {
     pub open spec fn wf(&self) -> bool { self.provider.wf() }
-    /// `self.items::<Pdo>(CategoryType::from(direction))`: an iterator over the category's window, or over an empty window when
-    /// the category is absent (contract of `category`: unit subdevice_eeprom)
+    /// `self.items::<T>(category)`: an iterator over the window of the FIRST category of that type in the EEPROM, or over an empty
+    /// window when the category is absent (contract of `category`: unit subdevice_eeprom)
     #[verifier::external_body]
-    pub async fn items_pdo(&self, direction: PdoType) -> (r: Result<CategoryIterator<Pdo>, Error>)
+    pub async fn items_pdo(&self, category: CategoryType) -> (r: Result<CategoryIterator<Pdo>, Error>)
         requires self.wf()
-        ensures r is Ok ==> (r->Ok_0).wf()
+        ensures r is Ok ==> (r->Ok_0).wf() && walked(self.provider, category)
+    { unimplemented!() }
+    #[verifier::external_body]
+    pub async fn items_fmmu_ex(&self, category: CategoryType) -> (r: Result<CategoryIterator<FmmuEx>, Error>)
+        requires self.wf()
+        ensures r is Ok ==> (r->Ok_0).wf() && walked(self.provider, category)
+    { unimplemented!() }
+    #[verifier::external_body]
+    pub async fn items_sm(&self, category: CategoryType) -> (r: Result<CategoryIterator<SyncManager>, Error>)
+        requires self.wf()
+        ensures r is Ok ==> (r->Ok_0).wf() && walked(self.provider, category)
     { unimplemented!() }
 
-    #[verifier::external_body]
-    pub async fn items_fmmu_ex(&self) -> (r: Result<CategoryIterator<FmmuEx>, Error>)
-        requires self.wf()
-        ensures r is Ok ==> (r->Ok_0).wf()
-    { unimplemented!() }
-    #[verifier::external_body]
-    pub async fn items_sm(&self) -> (r: Result<CategoryIterator<SyncManager>, Error>)
-        requires self.wf()
-        ensures r is Ok ==> (r->Ok_0).wf()
-    { unimplemented!() }
-
-/*@fn file=src/subdevice/eeprom.rs impl="impl<P> SubDeviceEeprom<P>" name=fmmu_mappings subst="heapless::Vec<FmmuEx, 16>=>CapVec<FmmuEx, 16>@@heapless::Vec::<_, 16>::new()=>CapVec::<FmmuEx, 16>::new()@@self.items::<FmmuEx>(CategoryType::FmmuExtended)=>self.items_fmmu_ex()" props=C12,C13 attr="#[verifier::loop_isolation(false)]"
+/*@fn file=src/subdevice/eeprom.rs impl="impl<P> SubDeviceEeprom<P>" name=fmmu_mappings subst="heapless::Vec<FmmuEx, 16>=>CapVec<FmmuEx, 16>@@heapless::Vec::<_, 16>::new()=>CapVec::<FmmuEx, 16>::new()@@self.items::<FmmuEx>(=>self.items_fmmu_ex(" props=C12,C13 attr="#[verifier::loop_isolation(false)]"
     requires self.wf()
-    ensures r is Ok ==> (r->Ok_0).v@.len() <= 16
+    ensures r is Ok ==> (r->Ok_0).v@.len() <= 16 && walked(self.provider, CategoryType::FmmuExtended)
 @loop 0
-    invariant cat.wf(), mappings.v@.len() <= 16,
+    invariant cat.wf(), mappings.v@.len() <= 16, walked(self.provider, CategoryType::FmmuExtended),
     decreases cat.reader.left()
 @closure 0 "|_e: FmmuEx| -> (cr: Error)"
     ensures cr == Error::Capacity(Item::FmmuEx)
 @*/
 
-/*@fn file=src/subdevice/eeprom.rs impl="impl<P> SubDeviceEeprom<P>" name=sync_managers subst="heapless::Vec<SyncManager, 8>=>CapVec<SyncManager, 8>@@heapless::Vec::<_, 8>::new()=>CapVec::<SyncManager, 8>::new()@@self.items::<SyncManager>(CategoryType::SyncManager)=>self.items_sm()" props=C12,C13 attr="#[verifier::loop_isolation(false)]"
+/*@fn file=src/subdevice/eeprom.rs impl="impl<P> SubDeviceEeprom<P>" name=sync_managers subst="heapless::Vec<SyncManager, 8>=>CapVec<SyncManager, 8>@@heapless::Vec::<_, 8>::new()=>CapVec::<SyncManager, 8>::new()@@self.items::<SyncManager>(=>self.items_sm(" props=C12,C13 attr="#[verifier::loop_isolation(false)]"
     requires self.wf()
     ensures
         // at most 8 sync managers: the index of a sync manager in this list (used as its register index) is below 8
-        r is Ok ==> (r->Ok_0).v@.len() <= 8
+        r is Ok ==> (r->Ok_0).v@.len() <= 8 && walked(self.provider, CategoryType::SyncManager)
 @loop 0
-    invariant cat.wf(), sync_managers.v@.len() <= 8,
+    invariant cat.wf(), sync_managers.v@.len() <= 8, walked(self.provider, CategoryType::SyncManager),
     decreases cat.reader.left()
 @closure 0 "|_e: SyncManager| -> (cr: Error)"
     ensures cr == Error::Capacity(Item::SyncManager)
 @*/
 
-/*@fn file=src/subdevice/eeprom.rs impl="impl<P> SubDeviceEeprom<P>" name=pdos subst="heapless::Vec<Pdo, 64>=>PdoVec@@heapless::Vec::new()=>PdoVec::new()@@self.items::<Pdo>(CategoryType::from(direction))=>self.items_pdo(direction)" props=C12,C13 attr="#[verifier::loop_isolation(false)]"
+/*@fn file=src/subdevice/eeprom.rs impl="impl<P> SubDeviceEeprom<P>" name=pdos subst="heapless::Vec<Pdo, 64>=>PdoVec@@heapless::Vec::new()=>PdoVec::new()@@self.items::<Pdo>(=>self.items_pdo(" props=C12,C13 attr="#[verifier::loop_isolation(false)]"
     requires self.wf()
     ensures
         // at most 64 PDOs, each with a bit length that is the sum of at most 255 entries of at most 255 bits
         r is Ok ==> (r->Ok_0).v@.len() <= 64 && forall|k: int| 0 <= k < (r->Ok_0).v@.len() ==> (#[trigger] (r->Ok_0).v@[k]).bit_len <= 255 * (r->Ok_0).v@[k].num_entries,
+        // Tx PDOs (device transmits) come from the TXPDO category, Rx PDOs from the RXPDO category
+        r is Ok ==> walked(self.provider, match direction { PdoType::Tx => CategoryType::TxPdo, PdoType::Rx => CategoryType::RxPdo }),
 @loop 0
     invariant
-        cat.wf(), pdos.v@.len() <= 64,
+        cat.wf(), pdos.v@.len() <= 64, walked(self.provider, match direction { PdoType::Tx => CategoryType::TxPdo, PdoType::Rx => CategoryType::RxPdo }),
         forall|k: int| 0 <= k < pdos.v@.len() ==> (#[trigger] pdos.v@[k]).bit_len <= 255 * pdos.v@[k].num_entries,
     decreases cat.reader.left()
 @loop 1
@@ -244,6 +256,18 @@ impl SubDeviceEeprom {
     let ghost n0 = pdo.num_entries;
 @closure 0 "|_e: Pdo| -> (cr: Error)"
     ensures cr == Error::Capacity(Item::Pdo)
+@*/
+/*@fn file=src/subdevice/eeprom.rs impl="impl<P> SubDeviceEeprom<P>" name=maindevice_read_pdos subst="heapless::Vec<Pdo, 64>=>PdoVec" props=C12,C08
+    requires self.wf()
+    ensures
+        // what the MainDevice READS is what the device TRANSMITS: the TXPDO category
+        r is Ok ==> walked(self.provider, CategoryType::TxPdo) && (r->Ok_0).v@.len() <= 64,
+@*/
+/*@fn file=src/subdevice/eeprom.rs impl="impl<P> SubDeviceEeprom<P>" name=maindevice_write_pdos subst="heapless::Vec<Pdo, 64>=>PdoVec" props=C12,C08
+    requires self.wf()
+    ensures
+        // what the MainDevice WRITES is what the device RECEIVES: the RXPDO category
+        r is Ok ==> walked(self.provider, CategoryType::RxPdo) && (r->Ok_0).v@.len() <= 64,
 @*/
 }
 
